@@ -1497,9 +1497,6 @@ def gen_C20(rng, n):
             # keep the atlas part proportionally: deterministic thinning
             step = len(ls) / per
             ls = [ls[int(i * step)] for i in range(per)]
-        # inputs of the recorded finding K1 (integer-operand div_rounded with n > 18) are about C04/C17, not about
-        # profile independence: leave them to those checks
-        ls = [l for l in ls if not (re.match(r"^(di|id|ii)\.divr\b", l) and int(l.split()[-1]) > 18)]
         out += ls
     # the overflow sites that relied on rustc's checks
     for c in (MAXC, -MAXC, MAXC - 1, MAXC // 2 + 1):
@@ -1522,6 +1519,8 @@ def gen_C20(rng, n):
                         out.append(dd("mul", m, sg * x, 1, y, 18)); out.append(dd("cmul", m, sg * x, 1, y, 18))
                         out.append(dd("mulr", m, sg * x, 1, y, 18, 18))
                         out.append("w.mdr %d %s %s %x" % (m, hx(sg * x), hx(y), 1))
+    # K1 (recorded finding, also a C20 matter): integer-operand div_rounded forms n + scale in u8 without a guard
+    out.append("id.divr.i64 5 7 3 2 255"); out.append("ii.divr.i32 5 1 3 250"); out.append("di.divr.i32 5 1 5 3 251")
     return out
 
 
